@@ -53,7 +53,9 @@ TrOdeint  == IsEvent("Odeint") /\ Odeint
 TrReturn  == IsEvent("Return") /\ Return /\ Len(Ev.rows) = nt + Origin
              /\ RowsMatchView(Ev.rows, View) /\ ConservedOK(Ev.rows)
 
-TraceNext == TrSetup \/ TrStep \/ TrAppend \/ TrResetup \/ TrOdeint \/ TrReturn
+(* the call raised the documented integration error at step k+1 *)
+TrRefuse  == IsEvent("Refuse") /\ Refuse
+TraceNext == TrSetup \/ TrRefuse \/ TrStep \/ TrAppend \/ TrResetup \/ TrOdeint \/ TrReturn
 TraceSpec == TraceInit /\ [][TraceNext]_tvars
 Progress == PrintT(<<"AT", tid, l, NEvts + 1>>)
 =============================================================================
